@@ -90,6 +90,15 @@ def explore_strip(run, n_random):
         for t in (t1, t2):
             inputs.append(t)
             metas.append(("trace", bodies))
+        # a difference INSIDE a line (one more blank between the timestamp and the rest of one line) is not "whitespace around lines":
+        # it must survive the stripping
+        if n >= 2:
+            j = rng.randrange(n)
+            cut = lines[j].index("] ") + 2
+            inner = list(lines)
+            inner[j] = lines[j][:cut] + rng.choice([" ", "  "]) + lines[j][cut:]
+            inputs.append("\n".join(inner) + "\n")
+            metas.append(("trace-inner-blank", (bodies, j, len(inner[j]) - len(lines[j]))))
         # the same trace kept WITHOUT its timestamps (a stored specification, stripped again when it is compared): lines whose
         # chart name is not made of the timestamp's own characters are left as they are
         if n >= 2 and all(re.search(r"^\[[^\]]*[^0-9\-:. \]][^\]]*\]", b) for b in bodies):
@@ -112,6 +121,16 @@ def explore_strip(run, n_random):
         cj = {"what": "strip", "input": s}
         if real != model:
             run.disagree("stripped()", cj, model, real)
+        if kind == "trace-inner-blank":
+            bodies0, j, extra = bodies
+            want = list(bodies0)
+            want[j] = " " * extra + bodies0[j]
+            if real != want:
+                run.violate("C32/inner-difference-lost", "line %d of a %d-line trace has %d more blank(s) between its timestamp and the rest than the "
+                            "original: stripped() returned %r, so the two traces %s" % (j, len(bodies0), extra, real,
+                                                                                        "compare equal" if real == bodies0 else "differ otherwise"), cj)
+            run.case(cj, nontrivial=True)
+            continue
         if kind == "trace":
             if len(bodies) >= 2 and real != bodies:
                 run.violate("C32/multi-line", "stripped() of a %d-line trace returned %r, expected the bodies %r" % (len(bodies), real, bodies), cj)
@@ -340,6 +359,14 @@ def explore_stmts(run, n_random):
                 form = "backslash continuation"
             lay.append((s, text, form, [first, second]))
             lay_src.append("def m%d(o, v0, v1, v2, d):\n    %s\n" % (len(lay) - 1, text))
+        # the same statements reading the attribute through the class (`type(o).x`): a read like any other
+        for k in range(min(len(plain), max(30, n_random // 4))):
+            s = rng.choice(plain)
+            if s[0] in ("assign", "aug") and s[1][0] == "attr":
+                continue
+            text = render_stmt(s).replace("o.x", "type(o).x")
+            lay.append((s, text, "read through the class", [text]))
+            lay_src.append("def m%d(o, v0, v1, v2, d):\n    %s\n" % (len(lay) - 1, text))
         path4 = os.path.join(VERIF, "harness", "_gen_layout_%d.py" % os.getpid())
         with open(path4, "w") as fh:
             fh.write("\n".join(lay_src))
@@ -364,12 +391,13 @@ def explore_stmts(run, n_random):
                 leak = desc5._lock._count
                 cj = {"what": "stmt-layout", "stmt": text}
                 run.traces_validated += 1
-                same_line = any("o.x" in ph and op_re.search(ph) for ph in phys)
-                run.count("two-line statement (%s), operator %s" % (form, "on the attribute's line" if same_line else "not on the attribute's line"))
+                same_line = any(("o.x" in ph or "type(o).x" in ph) and op_re.search(ph) for ph in phys)
+                run.count("%s (%s), operator %s" % ("statement" if form == "read through the class" else "two-line statement", form,
+                                                     "on the attribute's line" if same_line else "not on the attribute's line"))
                 if err is None and leak:
                     cls = stmt_class(s) if same_line else "operator-only-on-another-physical-line"
-                    run.violate("C28/lock-leak/%s" % cls, "after the two-line statement `%s` the calling thread still holds the attribute's "
-                                "lock (%d acquisition(s))" % (text.replace("\n", "\\n"), leak), cj)
+                    run.violate("C28/lock-leak/%s" % cls, "after the statement `%s` (%s) the calling thread still holds the attribute's "
+                                "lock (%d acquisition(s))" % (text.replace("\n", "\\n"), form, leak), cj)
                 run.case(cj, nontrivial=True)
         finally:
             try:
@@ -540,6 +568,137 @@ ATTR_LIKE_NAMES = ["keys", "items", "values", "get", "pop", "update", "clear", "
                    "__len__", "fromkeys"]
 
 
+def jsonc_tokens(v):
+    """prefix token encoding of a JSON value for the `jsonc` driver family; None if the value is outside the model (floats)"""
+    if v is None:
+        return [0]
+    if v is True or v is False:
+        return [1, int(v)]
+    if isinstance(v, int):
+        ds = [int(c) for c in str(abs(v))]
+        return [2, int(v < 0), len(ds)] + ds
+    if isinstance(v, float):
+        return None
+    if isinstance(v, str):
+        return [3, len(v)] + [ord(c) for c in v]
+    if isinstance(v, list):
+        out = [4, len(v)]
+        for x in v:
+            t = jsonc_tokens(x)
+            if t is None:
+                return None
+            out += t
+        return out
+    if isinstance(v, dict):
+        out = [5, len(v)]
+        for k, x in v.items():
+            t = jsonc_tokens(x)
+            if t is None or not isinstance(k, str):
+                return None
+            out += [len(k)] + [ord(c) for c in k] + t
+        return out
+    return None
+
+
+def jsonc_parse(toks):
+    """inverse of jsonc_tokens on the driver's output"""
+    pos = [0]
+
+    def nxt():
+        pos[0] += 1
+        return toks[pos[0] - 1]
+
+    def val():
+        k = nxt()
+        if k == 0:
+            return None
+        if k == 1:
+            return bool(nxt())
+        if k == 2:
+            neg, n = nxt(), nxt()
+            v = int("".join(str(nxt()) for _ in range(n)))
+            return -v if neg else v
+        if k == 3:
+            n = nxt()
+            return "".join(chr(nxt()) for _ in range(n))
+        if k == 4:
+            n = nxt()
+            return [val() for _ in range(n)]
+        n = nxt()
+        d = {}
+        for _ in range(n):
+            ln = nxt()
+            key = "".join(chr(nxt()) for _ in range(ln))
+            d[key] = val()
+        return d
+    return val()
+
+
+def explore_json_codec(run, n_random):
+    """tie of the Lean JSON codec (`Text.JsonCodec`, family `jsonc`): the text json.dumps writes for a generated value (floats excluded)
+    equals the model's, code point by code point; the model's decoder reads that text back to what json.loads gives; also texts
+    with extra whitespace and escapes the encoder never writes (\\/, upper-case hex)"""
+    rng = run.rng
+    vals = []
+    for _ in range(n_random):
+        v = gen_json(rng, 3)
+        if rng.random() < 0.3:
+            v = {"signal_name": rng.choice(["A", "\u00e9", "x\"y", "\ud83d", "\U0001f600"]), "payload": v}
+        if jsonc_tokens(v) is not None:
+            vals.append(v)
+    lines = []
+    for v in vals:
+        t = jsonc_tokens(v)
+        lines.append("jsonc enc %d %s" % (len(t), " ".join(map(str, t))))
+        text = json.dumps(v)
+        lines.append("jsonc dec %d %s" % (len(text), " ".join(str(ord(c)) for c in text)))
+    # hand-written texts: whitespace, optional escapes, pairs of surrogate escapes, things that must be rejected
+    extra = [' {"a" :\t[1 , 2 ]\n} ', '"\\/"', '"\\u00E9"', '"\\ud83d\\ude00"', '"\\ud83d"', '"\\ude00\\ud83d"', '[1,]', '{"a":1,"a":2}', '01', '-', '"\x01"',
+             '1.5', '1e3', 'nul', '[', '"abc', '{"a" 1}', '', '  ', '-0', '[[[[]]]]', '{"":{}}', '"\\x"', 'true false']
+    for text in extra:
+        lines.append("jsonc dec %d %s" % (len(text), " ".join(str(ord(c)) for c in text)))
+    outs = leanrun.run_driver(lines)
+    for k, v in enumerate(vals):
+        cj = {"what": "json-codec", "value": repr(v)[:300]}
+        run.traces_validated += 1
+        run.count("json codec: value encoded by the model and by json.dumps")
+        text = json.dumps(v)
+        mtext = "".join(chr(int(x)) for x in outs[2 * k].split()) if outs[2 * k].strip() else ""
+        if mtext != text:
+            run.disagree("json.dumps text", cj, mtext[:300], text[:300])
+        back = outs[2 * k + 1].strip()
+        try:
+            mval = None if back == "none" else jsonc_parse([int(x) for x in back.split()])
+            ok = back != "none" and json_equal(mval, json.loads(text))
+        except Exception:  # noqa
+            ok = False
+        if not ok:
+            run.disagree("json.loads of a json.dumps text", cj, back[:300], repr(json.loads(text))[:300])
+        run.case(cj, nontrivial=True)
+    for j, text in enumerate(extra):
+        back = outs[2 * len(vals) + j].strip()
+        cj = {"what": "json-codec", "text": text}
+        run.traces_validated += 1
+        run.count("json codec: hand-written text decoded")
+        try:
+            real = json.loads(text)
+            real_ok = jsonc_tokens(real) is not None
+        except ValueError:
+            real, real_ok = None, False
+        if not real_ok:
+            if back != "none":
+                run.disagree("json.loads of a text outside the model / malformed", cj, back[:200], "rejected or outside the model (floats)")
+        else:
+            try:
+                mval = None if back == "none" else jsonc_parse([int(x) for x in back.split()])
+                ok = back != "none" and json_equal(mval, real)
+            except Exception:  # noqa
+                ok = False
+            if not ok:
+                run.disagree("json.loads of a hand-written text", cj, back[:200], repr(real)[:200])
+        run.case(cj, nontrivial=True)
+
+
 def explore_json(run, n_random):
     rng = run.rng
     for k in range(n_random):
@@ -577,6 +736,24 @@ def explore_json(run, n_random):
             run.violate("C26/payload", "payload %r came back as %r" % (payload, back.payload), cj)
         if back.signal != mevent.signals[name] or back.signal != e.signal:
             run.violate("C26/number", "signal number %r, the registry says %r" % (back.signal, mevent.signals[name]), cj)
+        if isinstance(payload, (list, dict)) and rng.random() < 0.5:
+            # the program keeps the event, changes its payload in place and sends it again
+            import copy
+            if isinstance(payload, list):
+                payload.append(gen_json(rng, 1))
+                if payload and isinstance(payload[0], list):
+                    payload[0].append(7)
+            else:
+                payload["added %d" % k] = gen_json(rng, 1)
+            now = copy.deepcopy(e.payload)
+            try:
+                again = Event.loads(Event.dumps(e))
+                run.count("same event dumped again after its payload was changed in place")
+                if not json_equal(again.payload, now) or again.signal_name != name:
+                    run.violate("C26/payload/changed-in-place", "an event dumped, its payload changed in place, dumped again: loads gives %r, the "
+                                "event holds %r" % (again.payload, now), cj)
+            except Exception as ex:  # noqa
+                run.violate("C26/exception", "dumps / loads after an in-place change raised %s: %s" % (type(ex).__name__, ex), cj)
         run.case(cj, nontrivial=True)
     # a str made of surrogate code units (legal in Python, not well-formed Unicode): the JSON text merges a high/low pair
     sur = "\ud83d\ude00"
